@@ -211,10 +211,11 @@ def leeds_lines():
 CASES = [
     ("ucl-rr07", "uclchem", "rr07", ucl_lines, {}),
     ("ucl-rr07x", "uclchem", "rr07x", lambda: ucl_lines() + ucl_therm_lines(), {}),
-    ("ucl-rr07x-user", "uclchem", "rr07x", lambda: ucl_lines() + ucl_therm_lines(), {"binding": {"#CO": 855.0, "#CH4": 1234.5}, "yields": {"#CO": 0.0027, "#H2O": 0.5}}),
+    ("ucl-rr07x-user", "uclchem", "rr07x", lambda: ucl_lines() + ucl_therm_lines(), {"binding": {"#CO": 855.0, "#CH4": 1234.5}, "yields": {"#CO": 0.0027, "#H2O": 0.5, "#CH4": 2.0e-5}}),
     ("leeds-hh93", "leeds", "hh93", leeds_lines, {}),
     ("leeds-hh93i", "leeds", "hh93i", leeds_lines, {}),
-    ("leeds-hh93-user", "leeds", "hh93", leeds_lines, {"binding": {"GCO": 855.0}, "yields": {"GCO": 0.0027, "GH2O": 0.5}}),
+    ("leeds-hh93-user", "leeds", "hh93", leeds_lines, {"binding": {"GCO": 855.0}, "yields": {"GCO": 0.0027, "GH2O": 0.5, "GCH4": 1.8e-4}}),  # yields above and below the model's default 1e-3
+    ("leeds-hh93i-user", "leeds", "hh93i", leeds_lines, {"binding": {"GH2O": 4800.0}, "yields": {"GCO": 2.0e-5, "GH": 0.02}}),
     # the user's tables are changed *after* the network has been built and rendered once: the next rendering uses them
     ("ucl-rr07x-user-late", "uclchem", "rr07x", lambda: ucl_lines() + ucl_therm_lines(), {"binding": {"#CO": 855.0, "#CH4": 1234.5}, "yields": {"#CO": 0.0027, "#H2O": 0.5}, "late": True}),
     ("leeds-hh93-user-late", "leeds", "hh93", leeds_lines, {"binding": {"GCO": 855.0}, "yields": {"GCO": 0.0027, "GH2O": 0.5}, "late": True}),
